@@ -247,7 +247,7 @@ class SedovA(Adapter):
         return out
 
     def window(self, t):
-        """Walk inwards from r = 100 (cold gas, rho > 0, p = 0) in steps of 25 % until the pressure is non-zero or the
+        """Walk inwards from r = 100 (cold gas, rho > 0, p = 0) in steps of 25 % until the gas moves or the
         density is exactly zero (vacuum hole of a thin-shell solution): the shock lies in the last step.  Keeps the scan
         away from the core r << r_shock, whose values the documentation declares untrustworthy."""
         if t not in self.__dict__.setdefault("_w", {}):
@@ -255,7 +255,7 @@ class SedovA(Adapter):
             win = None
             for _ in range(80):
                 S = self.Fat(np.array([r]), t)[:, 0]
-                if S[2] > 0 or S[0] == 0:
+                if S[1] > 1e-6 * r / t or S[0] == 0:       # moving gas (u comparable to r/t; 1e-16 is interpolation noise)
                     win = (r / 1.02, (prev or 1.25 * r) * 1.02)
                     break
                 prev = r
